@@ -213,192 +213,61 @@ def rule_dispatch(rep: Report, rid: str) -> None:
            found=[unparse(c) for c in calls])
 
 
-class ParseFrame:
-    """Ordered facts about Parser.parse."""
-
-    def __init__(self) -> None:
-        fi = facts().func(f"{PC}.parse")
-        self.fi = fi
-        self.events: list[tuple] = []      # (kind, lineno, in_loop, detail)
-        self.state_var = None
-        self.token_var = None
-        self.ctx_var = None
-        self.ctx_args = None
-        self.loop = None
-        self._scan()
-
-    def _scan(self) -> None:
-        fi = self.fi
-        p = fi.params()
-        self.matcher_param = p[2] if len(p) > 2 else None
-
-        def visit(stmts, in_loop, cond_depth):
-            for s in stmts:
-                for ev in self._classify(s):
-                    self.events.append((ev[0], s.lineno, in_loop, cond_depth, ev[1]))
-                if isinstance(s, ast.While):
-                    if self.loop is None:
-                        self.loop = s
-                        self.events.append(("loop", s.lineno, in_loop, cond_depth, unparse(s.test)))
-                        visit(s.body, True, cond_depth)
-                        self.events.append(("endloop", s.lineno, in_loop, cond_depth, None))
-                    else:
-                        self.events.append(("other_loop", s.lineno, in_loop, cond_depth, unparse(s.test)))
-                elif isinstance(s, ast.For):
-                    self.events.append(("other_loop", s.lineno, in_loop, cond_depth, unparse(s.iter)))
-                    visit(s.body, in_loop, cond_depth + 1)
-                elif isinstance(s, ast.If):
-                    visit(s.body, in_loop, cond_depth + 1)
-                    visit(s.orelse, in_loop, cond_depth + 1)
-                elif isinstance(s, ast.Try):
-                    visit(s.body, in_loop, cond_depth)
-                    for h in s.handlers:
-                        visit(h.body, in_loop, cond_depth + 1)
-                    visit(s.finalbody, in_loop, cond_depth)
-                elif isinstance(s, ast.With):
-                    visit(s.body, in_loop, cond_depth)
-
-        visit(body_wo_doc(fi.node), False, 0)
-
-    def _classify(self, s: ast.stmt):
-        out = []
-        if isinstance(s, ast.If):
-            t = unparse(s.test)
-            # ``if token_matcher is None: token_matcher = TokenMatcher()``
-            if isinstance(s.test, ast.Compare) and isinstance(s.test.left, ast.Name) and len(s.test.ops) == 1 \
-                    and isinstance(s.test.ops[0], ast.Is) and is_const(s.test.comparators[0], None):
-                out.append(("if_none", s.test.left.id))
-            if isinstance(s.test, ast.Call) and isinstance(s.test.func, ast.Attribute) and s.test.func.attr == "eof" \
-                    and len(s.body) == 1 and isinstance(s.body[0], ast.Break) and not s.orelse:
-                out.append(("break_if_eof", unparse(s.test.func.value)))
-            elif any(isinstance(n, ast.Break) for b in s.body + s.orelse for n in ast.walk(b)):
-                out.append(("break_other", t))
-            if isinstance(s.test, ast.Attribute) and s.test.attr == "errors" and len(s.body) >= 1 \
-                    and isinstance(s.body[-1], ast.Raise):
-                out.append(("raise_if_errors", unparse(s.body[-1].exc)))
-            return out
-        val = None
-        tgt = None
-        if isinstance(s, ast.Assign) and len(s.targets) == 1:
-            val, tgt = s.value, s.targets[0]
-        elif isinstance(s, ast.AnnAssign) and s.value is not None:
-            val, tgt = s.value, s.target
-        elif isinstance(s, ast.Expr):
-            val = s.value
-        elif isinstance(s, ast.Return):
-            out.append(("return", unparse(s.value)))
-            val = s.value
-        elif isinstance(s, ast.Raise):
-            out.append(("raise", unparse(s.exc)))
-            return out
-        if val is None:
-            return out
-        for c in [n for n in ast.walk(val) if isinstance(n, ast.Call)]:
-            cn = call_name(c) or ""
-            if cn == "self.ast_builder.reset":
-                out.append(("reset_builder", None))
-            elif cn.endswith(".reset") and isinstance(c.func.value, ast.Name):
-                out.append(("reset_matcher", c.func.value.id))
-            elif cn == "ParserContext":
-                out.append(("ctx", [unparse(a) for a in c.args] + [f"{k.arg}={unparse(k.value)}" for k in c.keywords]))
-                if isinstance(tgt, ast.Name):
-                    self.ctx_var = tgt.id
-                self.ctx_args = c
-            elif cn == "self.start_rule":
-                out.append(("start_rule", [unparse(a) for a in c.args]))
-            elif cn == "self.end_rule":
-                out.append(("end_rule", [unparse(a) for a in c.args]))
-            elif cn == "self.read_token":
-                out.append(("read_token", unparse(tgt) if tgt is not None else None))
-                if isinstance(tgt, ast.Name):
-                    self.token_var = tgt.id
-            elif cn == "self.match_token":
-                out.append(("match_token", ([unparse(a) for a in c.args], unparse(tgt) if tgt is not None else None)))
-            elif cn == "self.get_result":
-                out.append(("get_result", None))
-            elif cn == "TokenMatcher":
-                out.append(("new_matcher", unparse(tgt) if tgt is not None else None))
-            elif cn == "TokenScanner":
-                out.append(("new_scanner", unparse(tgt) if tgt is not None else None))
-        if isinstance(tgt, ast.Name) and is_const(val, 0):
-            out.append(("zero", tgt.id))
-        if tgt is not None and is_self_attr(tgt):
-            out.append(("self_write", tgt.attr))
-        return out
-
-    def first(self, kind: str):
-        for e in self.events:
-            if e[0] == kind:
-                return e
-        return None
-
-    def all(self, kind: str):
-        return [e for e in self.events if e[0] == kind]
-
-    def index(self, kind: str) -> int:
-        for i, e in enumerate(self.events):
-            if e[0] == kind:
-                return i
-        return -1
-
-
-_PF = None
-
-
-def parse_frame() -> ParseFrame:
-    global _PF
-    if _PF is None:
-        _PF = ParseFrame()
-    return _PF
-
-
 def rule_parse_frame(rep: Report, rid: str) -> None:
-    """parse(): start_rule(GherkinDocument); state=0; loop{read; state=match_token(state, token, ctx); break iff eof};
-    end_rule(GherkinDocument)."""
-    pf = parse_frame()
-    fi = pf.fi
+    """parse(): start_rule(GherkinDocument); state=0; loop{read; state=match_token(state, token, ctx)} left exactly when the
+    token just matched is EOF; end_rule(GherkinDocument).  Read off the normal form (helpers kept symbolic)."""
+    from ..frame import parse_nf
+    from ..absint import fmt, is_const, const
+    from .. import nf
+    P = parse_nf()
+    I = P.I
+    fi = P.fi
     rep.used_function(fi.qualname)
     kw = dict(file=PARSER_FILE, line=fi.node.lineno, function=fi.qualname)
-    seq = [e[0] for e in pf.events]
-    rep.ob(rid, "parse has exactly one token loop", pf.loop is not None and not pf.all("other_loop"), **kw,
-           expected="one while loop", found=seq)
-    if pf.loop is None:
+    names = [n[1] for n, c in P.events]
+    rep.ob(rid, "parse has exactly one token loop", len(P.loops) == 1, **kw, expected="one loop", found=f"{len(P.loops)} loop(s); events {names}")
+    if len(P.loops) != 1:
         return
-    sr = [e for e in pf.all("start_rule")]
-    er = [e for e in pf.all("end_rule")]
-    li, le = pf.index("loop"), pf.index("endloop")
-    ok = len(sr) == 1 and sr[0][4][1:] == ["'GherkinDocument'"] and pf.events.index(sr[0]) < li and sr[0][3] == 0
+    loop, lctx = P.loops[0]
+    li = P.index(loop)
+    in_loop = lambda c: loop[1] in nf.loops_in_ctx(c)
+    sr, er = P.ev("start_rule"), P.ev("end_rule")
+    ok = len(sr) == 1 and sr[0][0][2][1:] == (P.ctx, const("GherkinDocument")) and P.index(sr[0][0]) < li and not nf.guards_in_ctx(sr[0][1])
     rep.ob(rid, "parse opens rule GherkinDocument once, unconditionally, before the loop", ok, **kw,
-           expected="self.start_rule(context, 'GherkinDocument') before while", found=[e[4] for e in sr])
-    ok = len(er) == 1 and er[0][4][1:] == ["'GherkinDocument'"] and pf.events.index(er[0]) > le and er[0][3] == 0
+           expected="self.start_rule(context, 'GherkinDocument') before the loop", found=[[fmt(a, I) for a in n[2][1:]] for n, c in sr])
+    ok = len(er) == 1 and er[0][0][2][1:] == (P.ctx, const("GherkinDocument")) and P.index(er[0][0]) > li and not in_loop(er[0][1]) and not nf.guards_in_ctx(er[0][1])
     rep.ob(rid, "parse closes rule GherkinDocument once, unconditionally, after the loop", ok, **kw,
-           expected="self.end_rule(context, 'GherkinDocument') after while", found=[e[4] for e in er])
-    # state threading
-    mt = pf.all("match_token")
-    rd = pf.all("read_token")
-    ok = len(mt) == 1 and mt[0][2] and len(rd) == 1 and rd[0][2] and pf.events.index(rd[0]) < pf.events.index(mt[0])
-    state_var = None
+           expected="self.end_rule(context, 'GherkinDocument') after the loop", found=[[fmt(a, I) for a in n[2][1:]] for n, c in er])
+    rd, mt = P.ev("read_token"), P.ev("match_token")
+    ok = len(rd) == 1 and len(mt) == 1 and in_loop(rd[0][1]) and in_loop(mt[0][1]) and P.index(rd[0][0]) < P.index(mt[0][0]) \
+        and not [g for g in nf.guards_in_ctx(rd[0][1])] and not [g for g in nf.guards_in_ctx(mt[0][1])]
+    tok = ("token", rd[0][0][4]) if rd else None
+    state_ok = False
+    found = None
     if ok:
-        args, tgt = mt[0][4]
-        state_var = tgt
-        ok = len(args) == 3 and args[0] == tgt and args[1] == rd[0][4] and args[2] == pf.ctx_var \
-            and tgt is not None and tgt.isidentifier()
-    rep.ob(rid, "each iteration reads one token and threads a local state: state = match_token(state, token, context)", ok, **kw,
-           expected="token = self.read_token(context); state = self.match_token(state, token, context)",
-           found={"read": [e[4] for e in rd], "match": [e[4] for e in mt]})
-    zeros = [e for e in pf.all("zero") if e[4] == state_var and pf.events.index(e) < li and e[3] == 0]
-    rep.ob(rid, "the state starts at 0 on every call (local initialised before the loop)", bool(zeros) and state_var is not None, **kw,
-           expected=f"{state_var} = 0 before the loop", found=[e[4] for e in pf.all("zero")])
-    # loop exit only on EOF
-    be = pf.all("break_if_eof")
-    bo = pf.all("break_other")
-    tv = rd[0][4] if rd else None
-    ok = isinstance(pf.loop.test, ast.Constant) and pf.loop.test.value is True and len(be) == 1 and not bo \
-        and be[0][4] == tv and mt and pf.events.index(be[0]) > pf.events.index(mt[0])
-    rets_in_loop = [e for e in pf.events if e[0] in ("return", "raise") and e[2]]
-    rep.ob(rid, "the loop ends exactly when the token just matched is EOF", ok and not rets_in_loop, **kw,
-           expected="while True: ...; if token.eof(): break (after match_token)",
-           found={"test": unparse(pf.loop.test), "breaks": [e[4] for e in be + bo], "exits_in_loop": [e[0] for e in rets_in_loop]})
+        a = mt[0][0][2]
+        st_arg = a[1] if len(a) > 1 else None
+        found = [fmt(x, I) for x in a[1:]]
+        info = I.loops[loop[1]]
+        if st_arg is not None and st_arg[0] == "phi" and st_arg[1] == loop[1]:
+            var = st_arg[2]
+            init = info.get("carried_init", {}).get(var)
+            upd = info.get("carried", {}).get(var)
+            state_ok = len(a) == 4 and a[2] == tok and a[3] == P.ctx and is_const(init, 0) and upd == ("state", mt[0][0][4]) and rd[0][0][2][1:] == (P.ctx,)
+            found = {"state": fmt(st_arg, I), "starts at": fmt(init, I) if init else None, "next": fmt(upd, I) if upd else None, "token": fmt(a[2], I), "context": fmt(a[3], I)}
+    rep.ob(rid, "each iteration reads one token and threads a local state: state = match_token(state, token, context)", ok and state_ok, **kw,
+           expected="token = self.read_token(context); state = self.match_token(state, token, context), state a local",
+           found=found if ok else {"read": len(rd), "match": len(mt)})
+    rep.ob(rid, "the state starts at 0 on every call (local initialised before the loop)", state_ok, **kw, expected="state = 0 before the loop", found=found)
+    le = P.loop_exit()
+    cond = le[1] if le else None
+    eof_forms = [("call", ".eof", (tok,), ()), ("eof", tok)] if tok else []
+    exits = [n for n, c in nf.iter_nodes(loop[2]) if n[0] in ("return", "raise")]
+    ok = cond in eof_forms and not exits
+    if ok and le[2] == "break":
+        ok = P.index(le[3]) > P.index(mt[0][0]) if mt else False
+    rep.ob(rid, "the loop ends exactly when the token just matched is EOF", ok, **kw, expected="left iff token.eof(), tested after match_token",
+           found={"exit": fmt(cond, I) if cond else None, "how": le[2] if le else None, "other exits": [n[0] for n in exits]})
 
 
 def rule_siblings(rep: Report, rid="C02.siblings") -> None:
@@ -525,32 +394,25 @@ def rule_queue(rep: Report, rid="C18.queue") -> None:
                expected="queue.append(token) right after read_token; one context.token_queue.extend(queue) after the loop",
                found=info["problems"])
     # read_token: queue first (from the left), else the scanner
-    fi = _fn(rep, "read_token")
-    b = body_wo_doc(fi.node)
-    ok = False
-    found = [unparse(s) for s in b]
-    ctx = fi.params()[1]
-    if len(b) == 1 and isinstance(b[0], ast.If):
-        i = b[0]
-        then_ret = i.body[0] if len(i.body) == 1 and isinstance(i.body[0], ast.Return) else None
-        else_ret = i.orelse[0] if len(i.orelse) == 1 and isinstance(i.orelse[0], ast.Return) else None
-        ok = unparse(i.test) in (f"{ctx}.token_queue", f"len({ctx}.token_queue) > 0", f"len({ctx}.token_queue)") \
-            and then_ret is not None and else_ret is not None \
-            and unparse(then_ret.value) == f"{ctx}.token_queue.popleft()" \
-            and unparse(else_ret.value) == f"{ctx}.token_scanner.read()"
-    elif len(b) == 2 and isinstance(b[0], ast.If) and isinstance(b[1], ast.Return):
-        i = b[0]
-        then_ret = i.body[0] if len(i.body) == 1 and isinstance(i.body[0], ast.Return) else None
-        ok = unparse(i.test) in (f"{ctx}.token_queue", f"len({ctx}.token_queue) > 0", f"len({ctx}.token_queue)") \
-            and then_ret is not None and not i.orelse \
-            and unparse(then_ret.value) == f"{ctx}.token_queue.popleft()" \
-            and unparse(b[1].value) == f"{ctx}.token_scanner.read()"
-    rep.ob(rid, "read_token takes from the left of the look-ahead queue first, else one token from the scanner", ok,
-           file=PARSER_FILE, line=fi.node.lineno, function=fi.qualname,
-           expected="if context.token_queue: return context.token_queue.popleft() else: return context.token_scanner.read()",
-           found=found)
+    from ..frame import analyse_read_token, parse_nf
+    rt = analyse_read_token()
+    rep.used_function(rt["fi"].qualname)
+    rep.ob(rid, "read_token takes from the left of the look-ahead queue first, else one token from the scanner", rt["ok"],
+           file=PARSER_FILE, line=rt["fi"].node.lineno, function=rt["fi"].qualname,
+           expected="context.token_queue.popleft() if context.token_queue else context.token_scanner.read()", found=rt["found"])
     # nobody else touches token_queue
     allowed = {f"{PC}.read_token"} | {i["fi"].qualname for i in pt.lookaheads.values()}
+    # helpers the look-ahead functions delegate to (call closure inside Parser)
+    pcls = facts().cls(PC)
+    work = [i["fi"] for i in pt.lookaheads.values()]
+    while work:
+        fx = work.pop()
+        for n in walk_no_nested_defs(fx.node):
+            if isinstance(n, ast.Call) and is_self_attr(n.func):
+                m = pcls.find_method(n.func.attr)
+                if m is not None and m.qualname not in allowed and not m.name.startswith("match_") and m.name not in ("parse", "match_token"):
+                    allowed.add(m.qualname)
+                    work.append(m)
     sites = 0
     for f in facts().all_functions():
         if f.module.name == "gherkin.inout":
@@ -561,27 +423,15 @@ def rule_queue(rep: Report, rid="C18.queue") -> None:
                 if f.qualname not in allowed:
                     rep.ob(rid, f"token_queue is used only by read_token and the look-ahead functions", False,
                            file=f.file, line=n.lineno, function=f.qualname, expected="no access", found=unparse(n))
-    rep.floor("token_queue use sites", sites, 4)
-    # queue object: a fresh deque per parse
-    pf = parse_frame()
-    ctxc = pf.ctx_args
-    ok = False
-    found = None
-    if ctxc is not None:
-        pc = facts().cls("gherkin.parser.ParserContext")
-        init = pc.find_method("__init__")
-        pos = init.params()[1:] if init else []
-        argmap = {}
-        for i, a in enumerate(ctxc.args):
-            if i < len(pos):
-                argmap[pos[i]] = a
-        for k in ctxc.keywords:
-            argmap[k.arg] = k.value
-        q = argmap.get("token_queue")
-        found = unparse(q) if q is not None else None
-        ok = q is not None and call_name(q) in ("deque", "collections.deque") and not q.args
-    rep.ob(rid, "each parse starts with a fresh, empty look-ahead queue (deque)", ok, file=PARSER_FILE,
-           line=pf.fi.node.lineno, function=pf.fi.qualname, expected="ParserContext(..., deque(), ...)", found=found)
+    rep.floor("token_queue use sites", sites, 2)
+    # queue object: a fresh, empty queue per parse
+    P = parse_nf()
+    from ..absint import HList, fmt
+    q = P.ctx_attr("token_queue")
+    o = P.I.obj(q) if q else None
+    ok = isinstance(o, HList) and not o.segs and o.origin[0] == P.fi.qualname and not [n for n, c in P.flat if n[0] == "mutate" and n[1] == q]
+    rep.ob(rid, "each parse starts with a fresh, empty look-ahead queue (deque)", ok, file=PARSER_FILE, line=P.fi.node.lineno, function=P.fi.qualname,
+           expected="ParserContext(..., deque(), ...)", found=fmt(q, P.I) if q else None)
 
 
 def rule_nest(rep: Report, rid="C18.nest") -> None:
